@@ -25,6 +25,18 @@ func run(t *testing.T, part string, n int) {
 
 func TestVerif_Ops(t *testing.T) { run(t, "ops", vkit.N(3000, 150000)) }
 
+// Long and deeply nested keys (radix tree depth up to 60, stems of 255-700 bytes).
+func TestVerif_OpsDeep(t *testing.T) {
+	r := vkit.Start(t, "C03", "ops-deep", "exploration", rule)
+	r.Require("return_value_checks", "commits")
+	r.ParallelCases(vkit.N(300, 15000), vkit.Workers(), func(i int) {
+		dbsim.RunPlain(r, i, dbsim.Opts{Tables: 1, Txns: 25, MaxOps: 10, ProbesPerIndex: 1, AbortPct: 15, SchemaPick: []int{5},
+			Report: map[string]bool{"ret": true, "query": true, "abort": true}},
+			func(s *dbsim.Sim) bool { return s.RetChecks() >= 5 && s.Commits() > 0 })
+	})
+	r.Finish()
+}
+
 // Wide fan-out keys (see C04 battery-wide): return values of writes whose radix nodes are promoted/demoted.
 func TestVerif_OpsWide(t *testing.T) {
 	r := vkit.Start(t, "C03", "ops-wide", "exploration", rule)
